@@ -371,6 +371,7 @@ fn parse_rust_derive_annotation(input: &str) -> nom::IResult<&str, Vec<&str>> {
     use nom::{
         bytes::complete::tag,
         character::complete::{alphanumeric1, char, multispace0},
+        combinator::opt,
         multi::{many0, separated_list1},
         sequence::delimited,
         Parser as _,
@@ -389,7 +390,15 @@ fn parse_rust_derive_annotation(input: &str) -> nom::IResult<&str, Vec<&str>> {
             multispace0,
         ),
         separated_list1(many0((multispace0, char(','), multispace0)), alphanumeric1),
-        (multispace0, char(')'), multispace0, char(']')),
+        // a derive list may end in a comma
+        (
+            multispace0,
+            opt(char(',')),
+            multispace0,
+            char(')'),
+            multispace0,
+            char(']'),
+        ),
     )
     .parse(input)
 }
